@@ -349,6 +349,11 @@ class IntroVisitor(ast.NodeVisitor):
         )
         if fi_or_p is not None and isinstance(fi_or_p, FunctionInteractions):
             self.inters.append(fi_or_p)
+            # The function passed to dds.keep has just been analysed with the arguments of that call:
+            # it must not be analysed a second time as a higher-order reference when its name is visited.
+            kept_name = _kept_function_name(node, self._start_mod, self._gctx)
+            if kept_name is not None:
+                self._store_names.add(kept_name)
         # str is the underlying type of a DDSPath
         if fi_or_p is not None and isinstance(fi_or_p, str):
             self.load_paths.append(fi_or_p)
@@ -578,6 +583,23 @@ def _function_name(node: ast.AST) -> List[str]:
         f"Cannot understand nodes of type {type(node)}. Syntax tree: {pformat(node)}"
     )
     assert False, (node, type(node))
+
+
+def _kept_function_name(
+    node: ast.Call, mod: ModuleType, gctx: EvalMainContext
+) -> Optional[LocalVar]:
+    """
+    If the node is a call of the form dds.keep(path, fun, ...), returns the name of fun.
+    """
+    if len(node.args) < 2 or not isinstance(node.args[1], ast.Name):
+        return None
+    local_path = LocalDepPath(PurePosixPath("/".join(_function_name(node.func))))
+    z: ObjectRetrievalType = ObjectRetrieval.retrieve_object(local_path, mod, gctx)
+    if isinstance(
+        z, AuthorizedObject
+    ) and z.resolved_path == CanonicalPathUtils.from_list(["dds", "keep"]):
+        return LocalVar(node.args[1].id)
+    return None
 
 
 class InspectFunction(object):
